@@ -4,6 +4,7 @@ from zope.interface import (
     implementer, noLongerProvides,
 )
 from zope.interface.declarations import Declaration
+from zope.interface.interface import InterfaceClass
 
 from zmon import util
 from zmon.util import nm
@@ -99,6 +100,21 @@ def run_case(ctx, rng, job):
             # expected list: flatten with the class spec's list in place
             before_n = sum(1 for _ in util_flatten(args[:pos]))
             flat = dedup(list(util_flatten(args[:pos])) + cls_expected[c] + list(util_flatten(args[pos + 1:])))
+        if rng.random() < 0.35:
+            # one-shot iterables (generators, iter(), map()) where a tuple or list could stand: they can be walked once
+            def oneshot(a):
+                k = rng.randrange(3)
+                return (x for x in a) if k == 0 else iter(list(a)) if k == 1 else map(lambda x: x, a)
+            n_wrapped = 0
+            for ai, a in enumerate(args):
+                if isinstance(a, (tuple, list)) and rng.random() < 0.6:
+                    args[ai] = oneshot(a)
+                    n_wrapped += 1
+            if not n_wrapped and args and rng.random() < 0.5:
+                # ... or the whole argument list as a single lazily produced argument
+                args = [oneshot(list(args))]
+                n_wrapped = 1
+            ctx.count('declarations_built_from_one_shot_iterables', int(n_wrapped > 0))
         D = Declaration(*args)
         decls.append((D, flat, depth))
         ctx.op('decl', nm(flat), depth)
@@ -107,6 +123,20 @@ def run_case(ctx, rng, job):
     decls.append((directlyProvidedBy(object()), [], 0))
     decls.append((Declaration(), [], 0))
     singles = [(i, [i], 0) for i in rng.sample(ifs, min(2, len(ifs)))]
+    # an interface defined again under the same name and module (a reloaded module): equal to the original, another
+    # object.  To the library they are one interface: membership and subtraction treat them alike.
+    orig = rng.choice(ifs)
+    twin = InterfaceClass(orig.__name__, (Interface,), {}, __module__=orig.__module__)
+    for A, la, da in decls:
+        ctx.ev(2)
+        ctx.count('equal_twin_operands')
+        exp_in = any(x is orig for x in la)
+        if (twin in A) != exp_in:
+            ctx.violation('membership-of-equal-twin', {'decl': nm(la), 'twin_of': nm(orig), 'got': twin in A})
+        exp_sub = [i for i in la if not ext(i, orig)]
+        got = list(A - twin)
+        if not (len(got) == len(exp_sub) and all(x is y for x, y in zip(got, exp_sub))):
+            ctx.violation('subtraction-of-equal-twin', {'A': nm(la), 'twin_of': nm(orig), 'got': nm(got), 'expected': nm(exp_sub)})
     related_pairs = 0
     for A, la, da in decls:
         ctx.ev()
@@ -207,7 +237,16 @@ def run_case(ctx, rng, job):
     for _ in range(3):
         o = P()
         la = dedup(rng.sample(ifs, rng.randint(1, min(4, len(ifs)))))
-        directlyProvides(o, *la)
+        if classes and rng.random() < 0.4:
+            # a class's implementation specification among the directly provided "interfaces": listed through its
+            # interfaces, in place
+            kc = rng.choice(classes)
+            pos = rng.randint(0, len(la))
+            directlyProvides(o, *(la[:pos] + [implementedBy(kc)] + la[pos:]))
+            la = dedup(la[:pos] + cls_expected[kc] + la[pos:])
+            ctx.count('direct_declarations_with_class_specification')
+        else:
+            directlyProvides(o, *la)
         cur = [i for i in la if i is not Interface]
         got = list(directlyProvidedBy(o))
         ctx.ev()
